@@ -36,7 +36,9 @@ REGIMES = {
                      Shmem=30, MemShared=31, Active=500, Inactive=200, Inact_dirty=70, Inact_clean=60, Inact_laundry=5,
                      Slab=70, **{"Active(file)": 6000, "Inactive(file)": 4000}),
 }
-ZONES = {"absent": None, "one": [3000], "three": [30, 4000, 9000], "huge": [2000000], "mid": [50000, 60000]}
+ZONES = {"absent": None, "one": [3000], "three": [30, 4000, 9000], "huge": [2000000], "mid": [50000, 60000],
+         # scale: a many-node machine whose /proc/zoneinfo is much longer than a read buffer (each zone lists per-CPU pagesets)
+         "numa": [7 + i for i in range(64)]}
 VMSTAT = {"both": b"nr_free_pages 5\npswpin 11\npswpout 13\n", "absent": None, "onlyin": b"pswpin 11\nfoo 3\n",
           "neither": b"nr_free_pages 5\n", "reversed": b"pswpout 13\nx 1\npswpin 11\n", "denied": "deny"}
 
@@ -51,6 +53,10 @@ def zoneinfo(lows):
     for i, lo in enumerate(lows):
         out.append(b"Node 0, zone   Z%d\n  pages free     100\n        min      %d\n        low      %d\n        high     %d\n"
                    b"        spanned  9\n  nr_free_pages 3\n      protection: (0, 1, 2)\n" % (i, lo // 2, lo, lo * 2))
+        if len(lows) > 8:
+            # per-CPU pagesets, as the kernel prints them for every zone: this is what makes the file long
+            out.append(b"  pagesets\n" + b"".join(b"    cpu: %d\n              count: 0\n              high:  0\n              batch: 1\n"
+                                                 b"  vm stats threshold: 42\n" % c for c in range(24)))
     return b"".join(out)
 
 
@@ -165,7 +171,9 @@ def run_case(case, w):
             w.nodes["/proc/vmstat"].mode = VMSTAT[vm]          # open() refused (hardened kernel, container) / read error
         else:
             w.set_file("/proc/vmstat", VMSTAT[vm])
-        w.sysinfo = (1, 2, 3, 4, st, sf, 1024)
+        unit = case[5] if len(case) > 5 else 1024
+        # sysinfo(2) counts in units of mem_unit bytes (1 on 64-bit hosts, 4096 on 32-bit kernels with much memory)
+        w.sysinfo = (1, 2, 3, 4, (st * 1024) // unit, (sf * 1024) // unit, unit)
         with warnings.catch_warnings(record=True) as ws:
             warnings.simplefilter("always")
             got = outcome(psutil.swap_memory)
@@ -219,6 +227,9 @@ def build_cases(thorough):
         for vm in VMSTAT:
             for have in (True, False, "total-only", "free-only"):
                 cases.append(("swap", st, sf, vm, have))
+            if vm == "both":
+                for unit_ in (1, 4096):
+                    cases.append(("swap", st * 4, sf * 4, vm, False, unit_))
     return cases
 
 
